@@ -43,24 +43,28 @@ static bool vx_rt_active;
 #define VX_H_CHECK(num)
 #endif
 /* Ghost record for from_integer (R6, ghost only): vx_gv[i] = |value| just before the digit of weight 10^i is generated,
- * vx_gv[vx_g_n] = 0.  Each step asserts (and then assumes) the one-step facts
- *     vx_gv[i] == vx_gv[i-1] / 10     and     character i == '0' + vx_gv[i] % 10
- * so that the round-trip lemma L-INT-RT is an explicit induction of one-step obligations. */
-static uint64_t vx_gv[22]; static unsigned vx_g_i, vx_g_n;
+ * vx_gd[i] = that digit, vx_gv[vx_g_n] = 0.  Each step asserts (and then assumes) the one-step fact
+ *     vx_gv[i] == 10 * vx_gv[i+1] + vx_gd[i],  vx_gd[i] <= 9,  character i == '0' + vx_gd[i]
+ * (the defining relation of truncating division, also for negative values), so that the round-trip lemma L-INT-RT is an
+ * explicit induction of one-step obligations; no division or chained multiplication has to be re-derived by the solver. */
+static uint64_t vx_gv[22]; static uint8_t vx_gd[22]; static unsigned vx_g_i, vx_g_n;
 #define VX_MAG(v) ((v) < 0 ? (uint64_t)0 - (uint64_t)(v) : (uint64_t)(v))
 #define VX_G_BEGIN(v) do { vx_g_i = 0; vx_g_n = 0; } while (0)
 #ifdef VX_CBMC
+#define VX_G_LINK(m) do { if (vx_g_i >= 1 && vx_g_i < 22) { \
+    __CPROVER_assert(vx_gv[vx_g_i - 1] == 10 * (m) + vx_gd[vx_g_i - 1] && (m) <= UINT64_MAX / 10, "[C04][C01] ghost: |value| == 10 * |value / 10| + digit (truncating division, also for negative values)"); \
+    __CPROVER_assume(vx_gv[vx_g_i - 1] == 10 * (m) + vx_gd[vx_g_i - 1] && (m) <= UINT64_MAX / 10); } } while (0)
 #define VX_G_DIGIT(v) do { uint64_t vx_m = VX_MAG(v); \
     __CPROVER_assert(vx_g_i < 20, "[C04] ghost: at most 20 digits are generated"); \
-    if (vx_g_i < 21) { vx_gv[vx_g_i] = vx_m; \
-      if (vx_g_i > 0) { __CPROVER_assert(vx_gv[vx_g_i] == vx_gv[vx_g_i - 1] / 10 && vx_gv[vx_g_i] != 0, "[C04] ghost: value/10 keeps the magnitude (also for negative values) and is nonzero while digits remain"); \
-                        __CPROVER_assume(vx_gv[vx_g_i] == vx_gv[vx_g_i - 1] / 10 && vx_gv[vx_g_i] != 0); } } \
+    VX_G_LINK(vx_m); \
+    if (vx_g_i >= 1) { __CPROVER_assert(vx_m != 0, "[C04] ghost: a further digit is generated only while the value is non-zero (no leading zero)"); } \
+    if (vx_g_i < 21) vx_gv[vx_g_i] = vx_m; \
     vx_g_i++; } while (0)
 #define VX_G_CHAR(c) do { if (vx_g_i >= 1 && vx_g_i < 22) { \
-    __CPROVER_assert((unsigned char)(c) == 48 + vx_gv[vx_g_i - 1] % 10, "[C04][C01] ghost: the generated character is the decimal digit of the current magnitude"); \
-    __CPROVER_assume((unsigned char)(c) == 48 + vx_gv[vx_g_i - 1] % 10); } } while (0)
+    vx_gd[vx_g_i - 1] = (uint8_t)((unsigned char)(c) - 48); \
+    __CPROVER_assert(vx_gd[vx_g_i - 1] <= 9, "[C04][C01][C08] ghost: every generated character is a decimal digit"); } } while (0)
 #define VX_G_END(v) do { __CPROVER_assert((v) == 0, "[C04] ghost: the digit loop ends only when the value is exhausted"); \
-    if (vx_g_i < 22) { __CPROVER_assert(vx_g_i >= 1 && vx_gv[vx_g_i - 1] / 10 == 0, "[C04] ghost: the last digit generated is the most significant one"); vx_gv[vx_g_i] = 0; } vx_g_n = vx_g_i; } while (0)
+    VX_G_LINK((uint64_t)0); if (vx_g_i < 22) vx_gv[vx_g_i] = 0; vx_g_n = vx_g_i; } while (0)
 #else
 #define VX_G_DIGIT(v)
 #define VX_G_CHAR(c)
